@@ -1,6 +1,6 @@
 #!/venv/bin/python
 """Run every mutants/cNN_*.diff against its property's quick check and write
-mutants/RESULTS.md.   usage: tools/run_mutants.py [--tests] [prefix ...]"""
+mutants/RESULTS.md.   usage: tools/run_mutants.py [--tests] [--jobs=N] [prefix ...]"""
 import glob
 import os
 import re
@@ -22,12 +22,17 @@ def main():
     args = sys.argv[1:]
     tests = '--tests' in args
     prefixes = [a for a in args if not a.startswith('--')]
+    jobs = 1
+    for a in args:
+        if a.startswith('--jobs='):
+            jobs = int(a.split('=')[1])
     rows = []
     files = sorted(glob.glob(os.path.join(VERIF, 'mutants', 'c*.diff')))
-    for path in files:
+    files = [f for f in files if not prefixes or any(
+        os.path.basename(f).startswith(p) for p in prefixes)]
+
+    def one(path):
         name = os.path.basename(path)[:-5]
-        if prefixes and not any(name.startswith(p) for p in prefixes):
-            continue
         prop = 'C' + re.match(r'c(\d+)_', name).group(1)
         scratch = tempfile.mkdtemp(prefix='xlmc_mut.')
         try:
@@ -36,7 +41,7 @@ def main():
             p = sh(['patch', '-p1', '-s', '-i', path], cwd=scratch)
             if p.returncode != 0:
                 rows.append((name, prop, 'does not apply any more', '-', '-'))
-                continue
+                return
             treg = '-'
             if tests:
                 t = sh([os.path.join(VERIF, 'tools', 'repo_tests.py'),
@@ -59,6 +64,11 @@ def main():
                   flush=True)
         finally:
             shutil.rmtree(scratch, ignore_errors=True)
+
+    import concurrent.futures
+    with concurrent.futures.ThreadPoolExecutor(max_workers=jobs) as pool:
+        list(pool.map(one, files))
+    rows.sort()
     head = sh(['git', '-C', '/repo', 'rev-parse', '--short', 'HEAD'])
     out = ['# Hand-written mutants vs. quick checks', '',
            '/repo HEAD %s; `exit 1` = the check reports a violation.  '
